@@ -99,6 +99,13 @@ class Carried(Init):
     entry: Any = None
 
 
+class GenList(list):
+    """result of a comprehension over a SYMBOLIC iterable: the items are the generic element(s); the length is unknown, so slicing, indexing with a
+    position, len() and (if nothing filters) truthiness are symbolic, never read off the Python list"""
+    sources: tuple = ()
+    filtered: bool = False
+
+
 def path_of(v) -> str:
     if isinstance(v, Sym):
         return v.path
@@ -290,6 +297,13 @@ class LDT(DT):
                 return SliceSym(f"{base.path}[{'' if lo is None else path_of(lo)}:{'' if hi is None else path_of(hi)}]", None, base, lo, hi)
             k = self.concrete(self.ev(n.slice, env))
             return SubSym(f"{base.path}[{path_of(k)}]", None, base, k)
+        if isinstance(base, GenList) and base:
+            if isinstance(n.slice, ast.Slice):
+                lo = self.concrete(self.ev(n.slice.lower, env)) if n.slice.lower else None
+                hi = self.concrete(self.ev(n.slice.upper, env)) if n.slice.upper else None
+                return SliceSym(f"{path_of(base)}[{'' if lo is None else path_of(lo)}:{'' if hi is None else path_of(hi)}]", None, base, lo, hi)
+            k = self.concrete(self.ev(n.slice, env))
+            return SubSym(f"{path_of(base)}[{path_of(k)}]", None, base, k)
         if isinstance(base, dict) and not isinstance(n.slice, ast.Slice):
             k = self.concrete(self.ev(n.slice, env))
             if isinstance(k, ElemSym) and k.path not in base:
@@ -379,6 +393,10 @@ class LDT(DT):
             return self.compare(v.op(), v.left, v.right, None)
         if isinstance(v, Sym):
             self.cmp[f"bool({v.path})"] = ("truth", v, None)
+        if isinstance(v, GenList) and v and not v.filtered:
+            key = f"bool({path_of(v)})"                   # non-empty iff the iterable is: unknown
+            self.cmp[key] = ("truth", v, None)
+            return self.atom(key, [True, False])
         return super().truth(v)
 
     def _comp(self, n, env, kind):
@@ -398,12 +416,21 @@ class LDT(DT):
             if isinstance(it, dict):
                 it = list(it)
             items = list(it) if isinstance(it, (list, tuple, range)) else [ElemSym(f"∀{unparse(g.target)}∈{path_of(it)}", None, it)]
+            if not isinstance(it, (list, tuple, range)) or isinstance(it, GenList):
+                generic.append(it.sources[0] if isinstance(it, GenList) and it.sources else it)
+                flt.append(bool(g.ifs) or (isinstance(it, GenList) and it.filtered))
             for x in items:
                 e2 = dict(e)
                 self.assign(g.target, x, e2)
                 if all(self.truth(self.ev(c, e2)) for c in g.ifs):
                     rec(gi + 1, e2)
+        generic: list = []
+        flt: list = []
         rec(0, dict(env))
+        if kind != "dict" and generic:
+            res = GenList(out_l)
+            res.sources, res.filtered = tuple(generic), any(flt)
+            return res
         return out_d if kind == "dict" else out_l
 
     def ev_ListComp(self, n, env):
@@ -465,6 +492,11 @@ class LDT(DT):
                 if isinstance(v, Sym):
                     return CallSym(f"{nm}({v.path})", None, None, nm, (v,), ())
                 return {"int": int, "str": str, "float": float}[nm](v)
+            if nm == "len" and len(n.args) == 1 and nm not in env:
+                v = self.concrete(self.ev(n.args[0], env))
+                if isinstance(v, GenList) and v:
+                    return self._callsym(None, "len", (v,), {})
+                self._pre[id(n.args[0])] = v
             if nm == "range" and nm not in env:
                 vs = [self.concrete(self.ev(a, env)) for a in n.args]
                 if all(isinstance(v, int) for v in vs):
@@ -580,6 +612,8 @@ def declare(ctx: Ctx) -> None:
     ctx.assume("loops over a symbolic iterable are evaluated for ONE generic iteration: the element is universally quantified and locals that are read and written in the "
                "body enter as arbitrary symbols (an inductive step from an unconstrained entry state); no fixpoint over several iterations is computed; loops over "
                "literal sequences are unrolled; while-loops and other unsupported statements assign fresh unknown symbols to their targets")
+    ctx.assume("a comprehension over a symbolic iterable yields a generic list (its items are the generic element, its length is unknown): slices, positions, len() and - "
+               "if nothing filters - emptiness of it are symbolic terms / enumerated atoms, never read off a concrete list")
     ctx.assume("an expression the evaluator does not model (unknown call, attribute of an unknown object) becomes an opaque symbol named by its source text; a rule that "
                "meets an opaque symbol where it needs structure reports an analysis gap, never a verdict")
     ctx.assume("conditions are treated as independent atoms (all combinations enumerated, also infeasible ones): a violation is reported for a path whose condition set "
@@ -869,19 +903,57 @@ def _boundary_leaves(ctx: Ctx):
     return _cache(ctx, "boundaries", make)
 
 
-def _boundary_records(leaves):
-    """[(valuation, boundary dict)] for every path that reports a boundary"""
+def _boundary_records(leaves, with_env: bool = False):
+    """[(valuation, boundary dict, node[, env after])] for every path that reports a boundary"""
     out = []
     for v, env, eff, outcome in leaves:
         for e in eff:
             if e[0] == "call" and e[1] == "append" and e[3] and isinstance(e[3][0], dict) and "page_relative_row" in e[3][0]:
-                out.append((v, e[3][0], e[5]))
+                out.append((v, e[3][0], e[5]) + ((env,) if with_env else ()))
         ret = outcome[1] if isinstance(outcome, tuple) and outcome[0] == "return" else None
         if isinstance(ret, list) and not any(e[0] == "call" and e[1] == "append" for e in eff):
             for d in ret:
                 if isinstance(d, dict) and "page_relative_row" in d:
-                    out.append((v, d, None))
+                    out.append((v, d, None) + ((env,) if with_env else ()))
     return out
+
+
+def _row_cells(x):
+    """[(frame, column, linear form of the row)] if x is one cell or a dict / list / tuple of cells of one row per column"""
+    if isinstance(x, (dict, list, tuple)) and len(x) > 0:
+        vals = list(x.values()) if isinstance(x, dict) else list(x)
+    elif _cell(_unstr(x)) is not None and isinstance(_cell(_unstr(x))[1], ElemSym):
+        vals = [x]                       # one column, for every column (any(...) / loop over the levels)
+    else:
+        return None
+    out = []
+    for val in vals:
+        c = _cell(_unstr(val))
+        if c is None or lin_of(c[2]) is None:
+            return None
+        out.append((c[0], c[1], lin_of(c[2])))
+    return out
+
+
+def _carried_row_cells(x, env, elem):
+    """a loop-carried local compared in the generic iteration for row r: if the loop re-binds it to the per-column cells of row r (the state after
+    the iteration) and it enters the loop as the per-column cells of row lo - 1 (checked separately: its value before the loop), then by induction
+    over the range (step 1) it holds the cells of row r - 1 whenever the iteration for row r starts"""
+    if not isinstance(x, Carried) or not isinstance(elem, ElemSym) or not isinstance(elem.source, RangeSym):
+        return None
+    after, entry = _row_cells(env.get(x.path)), _row_cells(x.entry)
+    lo = lin_of(elem.source.lo)
+    if after is None or entry is None or lo is None or len(after) != len(entry):
+        return None
+
+    def col_src(c):
+        return path_of(c.source) if isinstance(c, ElemSym) else path_of(c)
+    for a, e in zip(after, entry):
+        if a[2] != {elem.path: 1} or path_of(a[0]) != path_of(e[0]) or col_src(a[1]) != col_src(e[1]):
+            return None
+        if e[2] != lin_sub(lo, {"": 1}):
+            return ("entry", e[2], lin_sub(lo, {"": 1}))
+    return [(a[0], a[1], {elem.path: 1, "": -1}) for a in after]
 
 
 def _r05_1_boundaries(ctx: Ctx) -> None:
@@ -1111,43 +1183,47 @@ def _r05_7_compare(ctx: Ctx) -> None:
         ctx.gap("R05.7", f"_detect_group_boundaries could not be interpreted ({got})")
         return
     b, dt, leaves = got
-    recs = _boundary_records(leaves)
+    recs = _boundary_records(leaves, with_env=True)
     if not recs:
         ctx.gap("R05.7", "_detect_group_boundaries: no path reporting a boundary was re-identified")
         return
     n_ok = 0
-    for v, d, node in recs:
+    for v, d, node, env in recs:
         ab = lin_of(d.get("absolute_row")) if "absolute_row" in d else None
         if ab is None and lin_of(d.get("page_relative_row")) is not None:
             ps = _pos_params(b)
             ab = lin_sub(lin_of(d["page_relative_row"]), {ps[2]: -1}) if len(ps) > 2 else None
+        elem = next((x for x in parts(d.get("page_relative_row")) if isinstance(x, ElemSym)), None)
         found = False
         for key, val in v.items():
             rec = dt.cmp.get(key)
             if rec is None or rec[0] not in (ast.Eq, ast.NotEq):
                 continue
             l, r = rec[1], rec[2]
-            if isinstance(l, (dict, list, tuple)) and isinstance(r, (dict, list, tuple)) and type(l) is type(r) and len(l) == len(r) and len(l) > 0:
-                lv = list(l.values()) if isinstance(l, dict) else list(l)
-                rv = list(r.values()) if isinstance(r, dict) else list(r)
-            elif _cell(_unstr(l)) is not None and _cell(_unstr(r)) is not None and isinstance(_cell(_unstr(l))[1], ElemSym):
-                lv, rv = [l], [r]                    # one column of the two rows, for every column (any(...) / loop over the levels)
-            else:
+            carried = isinstance(l, Carried) or isinstance(r, Carried)
+            cl = _carried_row_cells(l, env, elem) if isinstance(l, Carried) else _row_cells(l)
+            cr = _carried_row_cells(r, env, elem) if isinstance(r, Carried) else _row_cells(r)
+            bad = next((x for x in (cl, cr) if isinstance(x, tuple) and x and x[0] == "entry"), None)
+            if bad is not None:
+                found = True
+                ctx.violation("R05.7", b.short, "boundary comparison initial row", b.where(node),
+                              f"the previous row's group values are carried through the loop, but before the loop they are read from row {bad[1]} instead of {bad[2]} "
+                              "(the row directly above the first row examined): the first comparison does not compare consecutive rows")
                 continue
-            cl, cr = [_cell(_unstr(x)) for x in lv], [_cell(_unstr(x)) for x in rv]
-            if any(c is None for c in cl + cr):
+            if cl is None or cr is None or len(cl) != len(cr) or (isinstance(l, (dict, list, tuple)) and isinstance(r, (dict, list, tuple)) and type(l) is not type(r)):
                 continue
             found = True
             differ = val if rec[0] is ast.NotEq else not val
-            rows = sorted([tuple(sorted(lin_of(c[2]).items())) if lin_of(c[2]) is not None else None for c in (cl[0], cr[0])], key=str)
-            ctx.instance("R05.7", b.where(node), f"boundary reported when per-column values of rows `{path_of(cl[0][2])[:40]}` and `{path_of(cr[0][2])[:40]}` differ: {differ}")
+            rows = sorted([tuple(sorted(c[2].items())) for c in (cl[0], cr[0])], key=str)
+            ctx.instance("R05.7", b.where(node), f"boundary reported when per-column values of rows `{cl[0][2]}` and `{cr[0][2]}` differ: {differ}"
+                         + (" (previous row's values carried by the loop: entry value and re-binding checked)" if carried else ""))
             if not differ:
                 ctx.violation("R05.7", b.short, "boundary comparison polarity", b.where(node), "a boundary is reported when consecutive rows have EQUAL group values")
-            elif ab is not None and None not in rows:
+            elif ab is not None:
                 want = sorted([tuple(sorted(ab.items())), tuple(sorted(lin_sub(ab, {"": 1}).items()))], key=str)
                 if rows != want:
                     ctx.violation("R05.7", b.short, "boundary comparison rows", b.where(node),
-                                  f"the rows compared (`{path_of(cl[0][2])[:40]}`, `{path_of(cr[0][2])[:40]}`) are not the boundary row and the row directly above it")
+                                  f"the rows compared (`{cl[0][2]}`, `{cr[0][2]}`) are not the boundary row and the row directly above it")
                 else:
                     n_ok += 1
         if not found:
@@ -1768,6 +1844,8 @@ def check(ctx: Ctx) -> None:
     ctx.assume("group values are compared via str() consistently (as the library does)")
     ctx.assume("R05.1 range check: a condition on the row index inside the range loop is linear in the index, so it is decided exactly by evaluating it at the binding end "
                "of the range (monotonicity), not by sampling")
+    ctx.assume("R05.7: a loop-carried 'previous row key' is accepted as the cells of row r-1 by induction over the range loop (step 1): its value before the loop must be the "
+               "cells of row lo-1 and the loop must re-bind it to the cells of the current row r; both are checked on the terms, otherwise gap / violation")
     ctx.assume("R05.2 / R05.6 guard tables quantify existentially over all conditions other than new_page / pageby_row (resp. 'the page has a subline heading'): "
                "'can be shown under this setting'")
     ctx.undecided("correct heading placement for concrete group runs (depends on run-time page assignment)")
